@@ -45,6 +45,7 @@ def accept_set(prog: Program, clsname: str) -> Dict[str, str]:
 def run(prog: Program, rep: Report, tier: str) -> None:
     rep.rule("R19.1", "DeviceType table: every member has a unique 4-hex-digit model code, protocol_type in {1,2}, a DeviceCategory member as category and a distinct value", 9, structural=True)
     rep.rule("R19.2", "each final device class accepts exactly the device types of one category (raises ValueError for all others); class -> category is a bijection onto the categories", 36)
+    rep.rule("R19.4", "the two category -> port tables are constants: no statement of the package or the scripts stores / deletes an item, calls pop / popitem / clear / update / setdefault on them or re-binds them", 2, structural=True)
     rep.rule("R19.3", "both port tables cover all categories; all types of a category share one protocol type p; the table value equals the protocol's UDP/TCP port; each API class defaults to its protocol's TCP port", 10, structural=True)
     rep.trusted += ["enum/dataclass semantics of CPython (member tuple -> __new__ parameters, dataclass field order along the MRO)", "spec/ports.json (port numbers from the property statement)"]
     with open(os.path.join(VERIF, "spec", "ports.json")) as fh:
@@ -121,6 +122,32 @@ def run(prog: Program, rep: Report, tier: str) -> None:
             got = d.get(EnumRef(cat.key, cm))
             want = spec[str(p)][kind]
             rep.check(got == want, "R19.3", f"{name}[{cm}]", wheret, f"{kind.upper()} port for {cm} (protocol type {p}) is {got}, expected {want}", key=f"R19.3|{name}|{cm}")
+    # R19.4 the tables are constants of the program: nothing removes, adds or replaces an entry at run time
+    import ast as _ast
+    MUT = {"pop", "popitem", "clear", "update", "setdefault", "__setitem__", "__delitem__"}
+    for tbl in ("aioswitcher.api:SWITCHER_DEVICE_TO_TCP_PORT", "aioswitcher.bridge:SWITCHER_DEVICE_TO_UDP_PORT"):
+        modname, name = tbl.split(":")
+        n_sites = 0
+        for m_ in prog.all_modules(True):
+            aliases = {name} if m_.name == modname else {k for k, v in getattr(m_, "imports", {}).items() if v == (modname, name)}
+            def is_tbl(e: Any) -> bool:
+                return (isinstance(e, _ast.Name) and e.id in aliases) or (isinstance(e, _ast.Attribute) and e.attr == name)
+            for nd in _ast.walk(m_.tree):
+                hit = None
+                if isinstance(nd, (_ast.Assign, _ast.Delete)) and any(isinstance(t, _ast.Subscript) and is_tbl(t.value) for t in nd.targets):
+                    hit = "an item is stored / deleted"
+                elif isinstance(nd, _ast.AugAssign) and (is_tbl(nd.target) or (isinstance(nd.target, _ast.Subscript) and is_tbl(nd.target.value))):
+                    hit = "augmented assignment"
+                elif isinstance(nd, _ast.Call) and isinstance(nd.func, _ast.Attribute) and nd.func.attr in MUT and is_tbl(nd.func.value):
+                    hit = f".{nd.func.attr}() is called on it"
+                elif isinstance(nd, _ast.Assign) and m_.name != modname and any(isinstance(t, _ast.Attribute) and t.attr == name for t in nd.targets):
+                    hit = "the module attribute is re-bound"
+                if hit:
+                    n_sites += 1
+                    rep.bad("R19.4", f"{name} mutated", f"{m_.relpath}:{nd.lineno}", f"{name} is changed at run time ({hit}: `{_ast.unparse(nd)[:70]}`): the category -> port mapping then depends on what ran before - "
+                            f"an entry removed by one call is missing for the next device of that category", key=f"R19.4|{name}|{m_.relpath}")
+        if n_sites == 0:
+            rep.ok("R19.4", f"{name} is never mutated", f"{prog.module(modname).relpath} {name}", "no item store / delete, mutator call or re-binding anywhere in the package and scripts")
     for api, p in spec["api_class_protocol"].items():
         ci = prog.cls(f"aioswitcher.api:{api}")
         I = Interp(prog)
